@@ -358,6 +358,7 @@ func runC05(w *W) {
 	}
 	w.genCarryThenNothing(judge)
 	w.genDenseSizes(judge)
+	w.genBackslashRuns(judge)
 	// long stretches without a structural character, alone and right behind a buffer that fills
 	// at a quote (carried index), terminated and not
 	for _, L := range []int{65536, 131072, 200000} {
